@@ -273,9 +273,19 @@ func judge(sp *Spec, res *result) (out []finding, decided []string) {
 		decided = append(decided, "grace-elapsed-before-end")
 		earliest := res.DryT + us(st.GraceUs) - sp.tol()
 		if us(end.T1Us) < earliest {
-			add("stream."+opName(end.Op), consumer+",dryup-called", "ended-before-grace-elapsed",
+			pending := 0
+			for _, p := range src.pages {
+				if p.pub == 0 || p.pub < res.DryT {
+					pending += len(p.items)
+				}
+			}
+			loss := "no-item-lost"
+			if nMain < pending {
+				loss = "items-published-before-dryup-lost"
+			}
+			out = append(out, finding{vrun.Sig{"kind": sp.Kind, "ep": "stream." + opName(end.Op), "pre": consumer + ",dryup-called", "effect": "ended-before-grace-elapsed", "fault": "none", "loss": loss},
 				fmt.Sprintf("%s reported the end at %v after %d of %d items; DryUp() was called at %v, grace %v (granularity allowed for: %v): not before %v",
-					opName(end.Op), us(end.T1Us), nMain, total, res.DryT, us(st.GraceUs), sp.tol(), earliest))
+					opName(end.Op), us(end.T1Us), nMain, total, res.DryT, us(st.GraceUs), sp.tol(), earliest)})
 			return
 		}
 	}
